@@ -2,11 +2,7 @@
 
 package vgirpc
 
-import (
-	"sort"
-
-	"github.com/apache/arrow-go/v18/arrow"
-)
+import "github.com/apache/arrow-go/v18/arrow"
 
 // Verification hooks (build tag "verif") for the HTTP stream continuation
 // properties. Add-only thin wrappers; nothing here is compiled into normal
@@ -35,14 +31,4 @@ func (h *HttpServer) VerifC16OpenCall(token []byte) (callID string, err error) {
 // VerifC16Strip runs stripFrameworkTickMetadata.
 func VerifC16Strip(meta arrow.Metadata) arrow.Metadata {
 	return stripFrameworkTickMetadata(meta)
-}
-
-// VerifC16FrameworkKeys lists frameworkTickMetadataKeys, sorted.
-func VerifC16FrameworkKeys() []string {
-	keys := make([]string, 0, len(frameworkTickMetadataKeys))
-	for k := range frameworkTickMetadataKeys {
-		keys = append(keys, k)
-	}
-	sort.Strings(keys)
-	return keys
 }
